@@ -459,6 +459,7 @@ struct H
       else
       {
         VF_CHECK(it != a->end(), PTAG + ":" CNAME ":find", "after %s: find(%d) = end() although the key is present", after, k);
+        if(it == a->end()) continue;     // only reached when the failure above belongs to another check's property (deferred)
         VF_CHECK(it.key().get() == k, PTAG + ":" CNAME ":find", "after %s: find(%d) designates key %d", after, k, it.key().get());
         bool okv = false;
         for(int j = lo; j < hi; ++j) if(ref[j].vaddr == (const void*)&*it && ref[j].tag == (*it).get()) okv = true;
